@@ -23,11 +23,13 @@ pub struct OpOpts {
     pub max_ops: usize,
     /// alias every selected field uniquely: no duplicate response keys anywhere
     pub unique_response_keys: bool,
+    /// now and then a fragment carries the name of an operation (separate name spaces: legal)
+    pub shared_names: bool,
 }
 
 impl OpOpts {
     pub fn standard() -> OpOpts {
-        OpOpts { coercing_literals: false, custom_directives: true, skip_include: true, fragments: true, variables: true, shorthand: false, max_depth: 3, nullable_var_with_default: false, max_ops: 3, unique_response_keys: false }
+        OpOpts { coercing_literals: false, custom_directives: true, skip_include: true, fragments: true, variables: true, shorthand: false, max_depth: 3, nullable_var_with_default: false, max_ops: 3, unique_response_keys: false, shared_names: false }
     }
 }
 
@@ -298,8 +300,8 @@ pub fn gen_valid_doc(rng: &mut Rng, ix: &SchemaIx, o: &OpOpts) -> Option<ExecDoc
 pub fn gen_doc_once(rng: &mut Rng, ix: &SchemaIx, o: &OpOpts) -> ExecDoc {
     let mut g = G { ix, o, frags: vec![], alias_n: 0, var_n: 0 };
     // name styles: lower-case initials and underscores are legal names too (the generators capitalise some of them)
-    let frag_prefix = rng.s(&["F", "F", "F", "f", "frag_", "_F"]);
     let op_prefix = rng.s(&["Op", "Op", "Op", "op", "my_op_", "_Op"]);
+    let frag_prefix = if o.shared_names && rng.chance(1, 4) { op_prefix } else { rng.s(&["F", "F", "F", "f", "frag_", "_F"]) };
     // fragment pool
     if o.fragments {
         let composites: Vec<String> = ix.order.iter().filter(|t| ix.is_composite(t)).cloned().collect();
